@@ -179,6 +179,28 @@ func (c *Ctl) ParkIf(key, actor string, gate func() bool) {
 	<-e.ch
 }
 
+// ParkOr is Park that also returns (true) when abort is closed first.
+func (c *Ctl) ParkOr(key, actor string, abort <-chan struct{}) (aborted bool) {
+	e := &parkEntry{key: key, actor: actor, ch: make(chan struct{})}
+	c.mu.Lock()
+	c.parked = append(c.parked, e)
+	c.mu.Unlock()
+	select {
+	case <-e.ch:
+		return false
+	case <-abort:
+		c.mu.Lock()
+		for i, p := range c.parked {
+			if p == e {
+				c.parked = append(c.parked[:i], c.parked[i+1:]...)
+				break
+			}
+		}
+		c.mu.Unlock()
+		return true
+	}
+}
+
 // ParkedKeys lists the keys of parked goroutines (call at quiescence).
 func (c *Ctl) ParkedKeys() []string {
 	c.mu.Lock()
@@ -260,8 +282,17 @@ func (c *Ctl) Quiesce() { synctest.Wait() }
 
 // Advance lets simulated time pass; timers fire in time order meanwhile.
 func (c *Ctl) Advance(d time.Duration) {
-	time.Sleep(d)
+	c.sleep(d)
 	synctest.Wait()
+}
+
+// sleep advances the fake clock by d plus one nanosecond. The skew grows with
+// every advance, so the controller never wakes at exactly the instant at which
+// a timer created earlier by the system under test is due: which of two timers
+// due at the same instant fires first is not defined, and a goroutine whose
+// timer is due but has not fired yet still counts as durably blocked.
+func (c *Ctl) sleep(d time.Duration) {
+	time.Sleep(d + time.Nanosecond)
 }
 
 // QuantumCap is the largest clock quantum index a run may draw (len-1 = all).
@@ -269,7 +300,7 @@ func (c *Ctl) advanceEvent(maxIdx int) Event {
 	return Event{Key: "clock/advance", Actor: "clock", Fire: func() {
 		q := clockQuanta[c.Sched.Draw(maxIdx+1)]
 		c.Logf("clock +%s", q)
-		time.Sleep(q)
+		c.sleep(q)
 	}}
 }
 
@@ -337,7 +368,7 @@ func (c *Ctl) Drain(maxSteps int, quantum time.Duration, done func() bool) bool 
 		c.Step++
 		if len(evs) == 0 {
 			c.Logf("drain clock +%s", quantum)
-			time.Sleep(quantum)
+			c.sleep(quantum)
 			continue
 		}
 		// rotate so that no event starves
